@@ -126,7 +126,14 @@ def run(chk):
     for short, fq, trav in TRAVERSAL_USERS:
         mod = repo.mod(short)
         f = mod.func(fq)
-        uses = any(isinstance(n, (ast.For, ast.comprehension)) and trav in norm(n.iter) for n in ast.walk(f))
+        loops = [n for n in ast.walk(f) if isinstance(n, (ast.For, ast.comprehension)) and trav in norm(n.iter)]
+        uses = bool(loops)
+        # the traversal must not be made conditional (`X if cond else ()`, `cond and X`): then nested constructs are only
+        # looked for when the condition happens to hold
+        conditional = [n for n in loops if any(isinstance(x, (ast.IfExp, ast.BoolOp)) for x in ast.walk(n.iter) if x is n.iter or isinstance(x, (ast.IfExp, ast.BoolOp))) and isinstance(n.iter, (ast.IfExp, ast.BoolOp))]
+        chk.ob("R2", mod, conditional[0] if conditional else f, f"{fq}: the {trav} traversal is unconditional", not conditional,
+               f"`{fq}` walks the expression only under a condition (`{norm(conditional[0].iter)[:90] if conditional else ''}`): "
+               "offending constructs nested where the condition does not look (e.g. inside a case condition) pass")  # fmt: skip
         chk.ob("R2", mod, f, f"{fq} inspects nested nodes via {trav}", uses,
                f"`{fq}` no longer walks the whole expression ({trav}): an offending construct nested in arithmetic / case branches passes")  # fmt: skip
     for ci in [sym.cls("ColExpr")] + sym.colexpr_classes():
